@@ -15,7 +15,7 @@ import subprocess
 import sys
 
 prop = sys.argv[1]
-wave = os.environ.get('WAVE', '')          # '' | 'w2' | 'w3'
+wave = os.environ.get('WAVE', '')          # '' | 'w2' .. 'w5'
 wt = '/tmp/{}-{}'.format(wave or 'wt', prop)
 ns = sys.argv[2:] or ['1', '2', '3']
 
